@@ -41,6 +41,12 @@ def select(t, c):
                                                    "lmi-value-differs-from-its-entries"):
             return ("C13|stale-value-after-resolve|%s" % base,
                     "after solve %d an object evaluates to a number that is not the latest solution (%s)" % (step, name))
+        if base in ("leaf-expression-value-is-not-the-solver-value", "leaf-expression-without-value",
+                    "coordinates-do-not-reproduce-gram"):
+            # leaf values are re-assigned at every solve (this is not the stale-cache finding F5, which concerns derived objects)
+            if not [x for x in t.get("_clauses", []) if x[0] == 1 and x[1] == "C02" and x[2] == name]:
+                return ("C13|leaf-values-are-not-those-of-the-latest-solve|%s" % base,
+                        "after solve %d the leaf points / leaf expressions do not carry the latest solution (%s)" % (step, name))
         if base == "held-object-has-no-value":
             return ("C13|no-value-after-resolve", "after solve %d: %s" % (step, name))
         if base in ("inequality-violated-at-the-instance", "equality-violated-at-the-instance", "lmi-violated-at-the-instance"):
